@@ -202,6 +202,7 @@ class CompartmentalModel:
         Args:
             init_pop: GraphObject or array type
         """
+        self._assert_not_finalized()
         self._init_pop_dist = {}
         self._array_population = init_pop
 
